@@ -82,6 +82,15 @@ fn c13_strategy(ctx: &Ctx) -> BoxedStrategy<SeqCase> {
               }
             }
           }
+          COp::Sub(k) if kind == ConnKind::Publish && !hot => {
+            // publish over a cold source: every connect() is a source subscription of its own
+            // (it plays the n-th script inside connect), subscribers may come at any time and
+            // see what the connections made after their arrival emit
+            if !subscribed[k] {
+              subscribed[k] = true;
+              actions.push(Action::Subscribe(k));
+            }
+          }
           COp::Sub(k) => {
             // what a (re-)connection to a finished hot source / of a replay should do is not fixed
             let allowed = !subscribed[k]
@@ -115,6 +124,14 @@ fn c13_strategy(ctx: &Ctx) -> BoxedStrategy<SeqCase> {
                 live[k] = false;
                 actions.push(Action::Unsub(k));
               }
+            }
+          }
+          COp::Connect if kind == ConnKind::Publish && !hot => {
+            if !connected {
+              actions.push(Action::Connect);
+              ever_connected = true;
+              connected = !nth_terminates(connections);
+              connections += 1;
             }
           }
           COp::Connect => {
@@ -268,7 +285,7 @@ fn c13_check(_ctx: &Ctx, c: &SeqCase) -> Report {
 pub fn properties() -> Vec<Property> {
   vec![Property {
     id: "C13",
-    rule: "cases = call histories of length <= 12 (thorough 20) over {subscribe_i, unsubscribe_i, connect, disconnect, source emits v, source completes / errors} with 3 subscribers on publish / ref_count / replay over a hot source, a cold synchronous source or a per-subscription cold source (directly or through map); oracle = per-subscriber traces, number of source subscriptions ever made, liveness of every source subscription at the end and at most one alive, all equal to the reference state machine; non-trivial = a subscriber joins mid-stream, or a resubscribe after the count dropped to zero, or a synchronous source",
+    rule: "cases = call histories of length <= 12 (thorough 20) over {subscribe_i, unsubscribe_i, connect, disconnect, source emits v, source completes / errors} with 3 subscribers on publish / ref_count / replay over a hot source, a cold synchronous source or a per-subscription cold source (directly or through map; publish over cold sources: connect again once the previous connection is over, subscribers at any time); oracle = per-subscriber traces, number of source subscriptions ever made, liveness of every source subscription at the end and at most one alive, all equal to the reference state machine; non-trivial = a subscriber joins mid-stream, or a resubscribe after the count dropped to zero, or a synchronous source",
     assumptions: vec![
       "after the source's own terminal only unsubscribe (replay: also late subscribe; ref_count: also a new first subscriber, for whom the source is subscribed again) is generated; replay over a cold source keeps its subscriber count above zero until the source finished (re-running a cold source into the same history is unspecified)",
     ],
